@@ -1,4 +1,4 @@
-import Proofs.C10.Tap
+import Proofs.C10.Bare
 import Proofs.C10.Checker
 import Props.C09
 /-!
@@ -10,14 +10,14 @@ Property theorems only (DESIGN §3 C10).  C10 is the COMPOSITION of models that 
 stream), and the signature checker handed to the evaluator is `Btc.Spend.checkerOf` (`Model/C10/Engine.lean`: C09 digest
 → C02 DER / ECDSA, C03 BIP340, C12 commitment; tied to btclib's engine verdict by the `c10.verdict` streams).
 
-* T1 (closure), landed for **p2pkh** (every flag set) and the witness-v0 key-hash templates **p2wpkh** and
-  **p2sh-p2wpkh**, for EVERY flag set that has WITNESS (and P2SH for the wrapped one) -- hence for the default, the
-  standard and the all-flags sets.  The signature
-  check is a hypothesis here (`checkECDSA … = ok true` over the script code BIP143 prescribes): that a signature made
-  by `sign` over the digest the engine recomputes passes it is C02-T1 (`Props.C02.ecdsa_sign_verifies`) plus the DER
-  round trip (`Props.C02.der_parse_serialize`); that composition is executed, not yet proved (`c10.verdict`).
-  p2pk / multisig / taproot closures are NOT proved (see the end of this file); they are covered by the
-  executable composition on every finished input of every flow.
+* T1 (closure) by symbolic evaluation of `Core.verifyScript`, for every flag set (those with WITNESS / P2SH where the
+  template needs them -- hence the default, the standard and the all-flags sets): **p2pk**, **p2pkh**, **p2wpkh**,
+  **p2sh-p2wpkh**, **bare / p2wsh / p2sh-p2wsh k-of-n multisig** (`1 ≤ k ≤ n ≤ 16`, any subset of k signers in key
+  order, NULLDUMMY dummy; the CHECKMULTISIG loop by induction on the key list), **taproot key path** and **taproot
+  script path with a single-key leaf**.  In these the signature check is an oracle hypothesis; `sign_passes_checkECDSA` /
+  `sign_passes_checkSchnorr` prove that the COMPOSED checker (`Spend.checkerOf`) accepts what the model's `sign` makes
+  (C02-T1 + DER round trip, C03-T1 + codec, over any `Lawful` group), and `closure_p2wpkh_signed` is the end-to-end
+  instance.  What is still not proved is listed at the end of this file.
 * T2 (tamper ⇒ different message): what the engine hands to signature verification is an injective image of the
   fields the hash type commits to, or an explicit hash collision exists.  Rejection itself rests on unforgeability,
   which is ASSUMED.
@@ -209,6 +209,67 @@ theorem closure_taproot_pk_leaf (env : VerifyEnv) (q x sig control : Bytes) (m :
     verifyScript env [] (p2tr q) [sig, pkLeaf x, control] = .ok () :=
   verify_tr_leaf env q x sig control m hq hl hW hnz hcl hm hv hne hslen hcom hsig
 
+/-! ### k-of-n multisig (CHECKMULTISIG matching loop by induction on the key list) -/
+
+/-- the matching loop: whenever the signatures can be matched IN ORDER against a sub-list of the keys (any subset of
+    `k` signers in key order -- `Aligned`), every signature and key passes its encoding check and the oracle answers
+    for every pair, OP_CHECKMULTISIG's loop answers `true`; for ALL key lists and ALL fuel. -/
+theorem multisig_loop_accepts (cx : Ctx) (sc : Bytes) (keys sigs : List Bytes) (fuel : Nat)
+    (hal : Aligned (chkOk cx sc) sigs keys)
+    (henc : ∀ s ∈ sigs, checkSignatureEncoding cx.flags s = .ok ())
+    (hpke : ∀ k ∈ keys, checkPubKeyEncoding cx.flags cx.sigversion k = .ok ())
+    (htot : ∀ s ∈ sigs, ∀ k ∈ keys, ∃ b, cx.checker.checkECDSA s k sc cx.sigversion = .ok b) :
+    multisigLoop cx sc fuel sigs keys = .ok true :=
+  multisigLoop_aligned cx sc keys sigs fuel hal henc hpke htot
+
+/-- T1 (bare k-of-n multisig, `1 ≤ k ≤ n ≤ 16`, compressed keys).  For EVERY flag set (NULLDUMMY included: the dummy is
+    the empty push): scriptSig `OP_0 <sig_1> … <sig_k>` against `k <keys> n CHECKMULTISIG` is accepted, given the
+    signatures (2..75 bytes each) are aligned with the keys under the oracle, pass the encoding checks, the oracle is
+    total on the pairs, and (`hsc`) FindAndDelete finds none of the pushed signatures in the script code. -/
+theorem closure_multisig_bare (env : VerifyEnv) (keys sigs : List Bytes)
+    (hn : 1 ≤ keys.length ∧ keys.length ≤ 16) (hk : 1 ≤ sigs.length ∧ sigs.length ≤ keys.length)
+    (hkeys : ∀ x ∈ keys, isCompressedPubKey x = true) (hs : ∀ s ∈ sigs, 2 ≤ s.length ∧ s.length ≤ 75)
+    (hsc : multisigScriptCode (evalCtx env .BASE (multisig sigs.length keys)) sigs.reverse (multisig sigs.length keys) =
+      .ok (multisig sigs.length keys))
+    (hal : Aligned (chkOk (evalCtx env .BASE (multisig sigs.length keys)) (multisig sigs.length keys)) sigs keys)
+    (henc : ∀ s ∈ sigs, checkSignatureEncoding env.flags s = .ok ())
+    (htot : ∀ s ∈ sigs, ∀ x ∈ keys, ∃ b, env.checker.checkECDSA s x (multisig sigs.length keys) .BASE = .ok b) :
+    verifyScript env (serializePushes ([] :: sigs)) (multisig sigs.length keys) [] = .ok () := by
+  have : serializePushes ([] :: sigs) = 0x00 :: sigs.flatMap pushData := by simp [serializePushes, pushData]
+  rw [this]
+  exact verify_bare_multisig env keys sigs hn hk hkeys hs hsc hal henc htot
+
+/-- T1 (p2wsh k-of-n multisig).  For every flag set with WITNESS: empty scriptSig, witness
+    `[dummy, sig_1 … sig_k, witness script]` against `0 <sha256(witness script)>` is accepted (no FindAndDelete under
+    segwit, so no such hypothesis). -/
+theorem closure_multisig_p2wsh (env : VerifyEnv) (h : Bytes) (keys sigs : List Bytes) (hl : h.length = 32)
+    (hW : has env.flags FLAG_WITNESS = true) (hnz : castToBool h = true)
+    (hh : env.hashes.sha256 (multisig sigs.length keys) = h)
+    (hn : 1 ≤ keys.length ∧ keys.length ≤ 16) (hk : 1 ≤ sigs.length ∧ sigs.length ≤ keys.length)
+    (hkeys : ∀ x ∈ keys, isCompressedPubKey x = true) (hsl : ∀ s ∈ sigs, s.length ≤ 520)
+    (hal : Aligned (chkOk (evalCtx env .WITNESS_V0 (multisig sigs.length keys)) (multisig sigs.length keys)) sigs keys)
+    (henc : ∀ s ∈ sigs, checkSignatureEncoding env.flags s = .ok ())
+    (htot : ∀ s ∈ sigs, ∀ x ∈ keys, ∃ b, env.checker.checkECDSA s x (multisig sigs.length keys) .WITNESS_V0 = .ok b) :
+    verifyScript env [] (p2wsh h) (([] :: sigs) ++ [multisig sigs.length keys]) = .ok () :=
+  verify_p2wsh_multisig env h keys sigs hl hW hnz hh hn hk hkeys hsl hal henc htot
+
+/-- T1 (p2sh-p2wsh k-of-n multisig).  For every flag set with P2SH and WITNESS: scriptSig = one push of the redeem
+    script `0 <sha256(witness script)>`, the same witness. -/
+theorem closure_multisig_p2sh_p2wsh (env : VerifyEnv) (h hr : Bytes) (keys sigs : List Bytes)
+    (hl : h.length = 32) (hrl : hr.length = 20)
+    (hP : has env.flags FLAG_P2SH = true) (hW : has env.flags FLAG_WITNESS = true) (hnz : castToBool h = true)
+    (hhr : env.hashes.ripemd160 (env.hashes.sha256 (p2wsh h)) = hr)
+    (hh : env.hashes.sha256 (multisig sigs.length keys) = h)
+    (hn : 1 ≤ keys.length ∧ keys.length ≤ 16) (hk : 1 ≤ sigs.length ∧ sigs.length ≤ keys.length)
+    (hkeys : ∀ x ∈ keys, isCompressedPubKey x = true) (hsl : ∀ s ∈ sigs, s.length ≤ 520)
+    (hal : Aligned (chkOk (evalCtx env .WITNESS_V0 (multisig sigs.length keys)) (multisig sigs.length keys)) sigs keys)
+    (henc : ∀ s ∈ sigs, checkSignatureEncoding env.flags s = .ok ())
+    (htot : ∀ s ∈ sigs, ∀ x ∈ keys, ∃ b, env.checker.checkECDSA s x (multisig sigs.length keys) .WITNESS_V0 = .ok b) :
+    verifyScript env (serializePushes [p2wsh h]) (p2sh hr) (([] :: sigs) ++ [multisig sigs.length keys]) = .ok () := by
+  have : serializePushes [p2wsh h] = pushData (wshSpk h) := by simp [serializePushes, p2wsh_eq]
+  rw [this]
+  exact verify_p2sh_p2wsh_multisig env h hr keys sigs hl hrl hP hW hnz hhr hh hn hk hkeys hsl hal henc htot
+
 /-- the three flag sets the harness runs (regenerated from `engine/flags.py`) all have P2SH and WITNESS -/
 theorem standard_flag_sets :
     ∀ f ∈ [Gen.Spend.ALL_FLAGS, Gen.Spend.STANDARD_FLAGS, Gen.Spend.EVERY_FLAG],
@@ -397,8 +458,12 @@ example : (pushedSigs (fun _ => true)
 /-
 NOT PROVED (full statements kept; the executable composition `Spend.verifyInput`, run against btclib's engine on every
 finished input and on tampered ones, is what covers them):
-* closure_multisig (bare / p2sh / p2wsh / p2sh-p2wsh): for `1 ≤ k ≤ n ≤ 20`, keys `ks`, a sublist of `k` signers in key
-  order: `verifyScript env (finalize …) = ok` -- by induction on `ks` through `multisigLoop`;
+* closure_multisig_p2sh (legacy p2sh around the multisig script): needs `getOp` of an OP_PUSHDATA1/2 push of the redeem
+  script (3 + 34·n bytes, > 75 for n ≥ 3) on top of `verify_bare_multisig`'s pieces; the finalizer's layout for
+  multisig (`p2ms_m_and_keys` read-back of `multisig k keys`) is a `decide` example and the `c10.fin` stream, not yet a
+  theorem for all key lists; `hsc` (FindAndDelete finds no pushed signature among the key pushes) is a hypothesis;
+* closure for a `multi_a` leaf: the library's own finalizer refuses such a leaf (`single_leaf_key`); the flows close it
+  with a solver built on `miniscript.satisfy`, and its satisfaction is C15's business;
 * that `Der.serialize r s ‖ ht` passes `checkSignatureEncoding` (BIP66 validity of the DER writer's output, low s, defined
   hash type) is a hypothesis of the closures; it is observed on every signature of every flow (`c10.verdict`).
 -/
